@@ -1,6 +1,7 @@
 """C14 - boundary adjusters move times only as far as allowed and keep labels."""
 from __future__ import annotations
 
+import math
 from fractions import Fraction
 
 from hypothesis import strategies as st
@@ -35,7 +36,10 @@ def allowed_values(t, refs, m):
     """-> (set of allowed result values, class)"""
     t_, m_ = Fraction(t), Fraction(m)
     d = min(abs(Fraction(r) - t_) for r in refs)
-    nearest = {r for r in refs if abs(Fraction(r) - t_) == d}
+    # two candidates whose exact distances differ by less than the rounding of one float subtraction each are
+    # a tie to any floating-point implementation: either may be taken
+    tol = 2 * Fraction(math.ulp(max(abs(t), max(abs(r) for r in refs))))
+    nearest = {r for r in refs if abs(Fraction(r) - t_) <= d + tol} if d > 0 else {r for r in refs if Fraction(r) == t_}
     if d < m_ * (1 - REL) or d == m_:
         # 'within maxDifference' includes a distance of exactly maxDifference (exact on the dyadic grid)
         cls = "already_on_ref" if d == 0 else ("exactly_maxdiff_must_move" if d == m_ else "moved")
